@@ -274,6 +274,9 @@ func (l *WAL) Switch() (*WalFiles, error) {
 
 	walFiles := newWalFiles(l.maxRowTime, l.lock, l.logPath)
 	l.maxRowTime = math.MinInt64
+	// the new generation of files starts at partition 0 again: replay consumes the
+	// partitions round-robin starting at 0 and must see records in write order
+	atomic.StoreUint64(&l.writeReq, 0)
 
 	for i := 0; i < l.partitionNum; i++ {
 		go func(lw *LogWriter) {
